@@ -7,7 +7,13 @@ from vlib.vextract import VUnit, Fn, Const, Raw, Rw, Enum, Block, Struct
 
 PRE = r'''
 #[derive(Clone, Copy)] pub struct LocalId { pub g: Ghost<int> }
-pub struct Ra { pub activations: Vec<(u32, usize)>, pub has_facts: bool }
+pub struct Slot { pub idv: Ghost<Option<int>> }                  // LocalSlot: only `id` matters here (name and value are not read by the search)
+pub struct Ra { pub activations: Vec<(u32, usize)>, pub has_facts: bool, pub env: Vec<Vec<Slot>> }
+impl Slot {
+    // `slot.id == Some(local)` (derived PartialEq on Option<LocalId>)
+    #[verifier::external_body]
+    pub fn is(&self, l: LocalId) -> (r: bool) ensures r == (self.idv@ == Some(l.g@)) { unimplemented!() }
+}
 pub uninterp spec fn owner_of(l: LocalId) -> u32;                // facts.locals[local].owner
 impl Ra {
     // `self.facts()` then `facts.locals[local.0 as usize].owner` (None: no analysis facts installed, lookups then go by name)
@@ -20,6 +26,37 @@ pub open spec fn newest(a: Seq<(u32, usize)>, f: u32, n: int) -> Option<usize> d
 }
 '''
 
+PRE += r'''
+// where the search for `l` starts, as the property states it
+pub open spec fn floor_of(me: &Ra, l: LocalId) -> int {
+    if !me.has_facts { 0 } else { match newest(me.activations@, owner_of(l), me.activations@.len() as int) { Some(b) => b as int, None => 0 } }
+}
+pub open spec fn holds(me: &Ra, s: int, j: int, l: LocalId) -> bool { me.env@[s]@[j].idv@ == Some(l.g@) }
+pub proof fn lemma_newest_bounded(a: Seq<(u32, usize)>, f: u32, n: int, k: int)
+    requires 0 <= n <= a.len(), forall|i: int| 0 <= i < n ==> (#[trigger] a[i]).1 <= k,
+    ensures newest(a, f, n) is Some ==> newest(a, f, n)->Some_0 <= k,
+    decreases n
+{ if n > 0 && a[n - 1].0 != f { lemma_newest_bounded(a, f, n - 1, k); } }
+'''
+
+# R10e: `for X in S[floor..].iter_mut().rev() {` / `for Y in X.iter_mut().rev() {` written as the index loops std defines them to be
+# (last index first, down to `floor` / 0); `return Some(&mut slot.value)` returns the POSITION of that slot instead of the borrow
+def outer(lo):
+  return ("let lo: usize = %s; let mut si: usize = me.env.len();\n"
+         "        while si > lo\n"
+         "            invariant lo <= si <= me.env@.len(),\n" % lo +
+         "                      forall|s2: int, j2: int| si <= s2 < me.env@.len() && 0 <= j2 < me.env@[s2]@.len() ==> !#[trigger] holds(me, s2, j2, local),\n"
+         "            decreases si,\n"
+         "        { si = si - 1; let scope = &me.env[si];")
+OUTER = outer(r"\1")
+INNER = ("let mut sj: usize = scope.len();\n"
+         "            while sj > 0\n"
+         "                invariant sj <= scope@.len(), lo <= si < me.env@.len(), *scope == me.env@[si as int],\n"
+         "                          forall|s2: int, j2: int| si < s2 < me.env@.len() && 0 <= j2 < me.env@[s2]@.len() ==> !#[trigger] holds(me, s2, j2, local),\n"
+         "                          forall|j2: int| sj <= j2 < scope@.len() ==> !#[trigger] holds(me, si as int, j2, local),\n"
+         "                decreases sj,\n"
+         "            { sj = sj - 1; let slot = &scope[sj];")
+
 UNIT = VUnit(
     name="activation_floor",
     props=["C04"],
@@ -27,7 +64,10 @@ UNIT = VUnit(
     preamble=PRE,
     trusted=["activation marks are (u32, usize) pairs (FunctionId is a u32 newtype); the facts table is a shim returning the local's owner",
              "R10d: `X.iter().rev().find_map(|(function, base)| (COND).then_some(*base)).unwrap_or(0)` is written as the loop std defines it to be: from the last element to the first, the first element satisfying COND gives the value, 0 if none",
-             "the three searches over env[floor..] are not extracted (iterator chains over a slice of Vecs with closures)"],
+             "R10e: in lookup_local_mut the two `for .. in ...iter_mut().rev()` loops are written as index loops from the last element down (to `floor` for the slice `env[floor..]`), and the returned `&mut slot.value` as the slot's position (scope index, slot index); LocalSlot is reduced to its `id`",
+             "every activation mark's base is at most env.len() (precondition of lookup_local_mut: established by call_prologue, which pushes the mark for the scope it has just opened -- unit block_exec; not re-proved as a data-structure invariant here). Without it `env[floor..]` panics",
+             "lookup_local_env and assign_bound_local (find / find_map closures over the same slice) are not extracted"],
+    lemma_obligations=["lemma_newest_bounded"],
     items=[
         Fn("local_search_floor", impl="impl Runtime",
            sig="fn local_search_floor(me: &Ra, local: LocalId) -> (res: usize)", expect_sig=r"fn local_search_floor\(&self, local: LocalId\) -> usize",
@@ -46,5 +86,27 @@ UNIT = VUnit(
                         "          r }", min_matches=0),
                      Rw("R2", r"self\.activations", "me.activations", min_matches=0)],
            vacuity="-", real_name="Runtime::local_search_floor"),
+        Fn("lookup_local_mut", impl="impl Runtime",
+           sig="fn lookup_local_mut(me: &Ra, local: LocalId) -> (res: Option<(usize, usize)>)",
+           expect_sig=r"fn lookup_local_mut\(&mut self, local: LocalId\) -> Option<&mut Value<'a>>",
+           requires=["forall|i: int| 0 <= i < me.activations@.len() ==> (#[trigger] me.activations@[i]).1 <= me.env@.len()"],
+           ensures=[
+               # the answer lies in the newest activation of the owner (never below its parameter scope) and holds this local
+               "res is Some ==> floor_of(me, local) <= res->Some_0.0 < me.env@.len() && res->Some_0.1 < me.env@[res->Some_0.0 as int]@.len() && holds(me, res->Some_0.0 as int, res->Some_0.1 as int, local)",
+               # it is the NEWEST such slot: no later scope, and no later slot of the same scope, holds the local
+               "res is Some ==> forall|s2: int, j2: int| res->Some_0.0 < s2 < me.env@.len() && 0 <= j2 < me.env@[s2]@.len() ==> !#[trigger] holds(me, s2, j2, local)",
+               "res is Some ==> forall|j2: int| res->Some_0.1 < j2 < me.env@[res->Some_0.0 as int]@.len() ==> !#[trigger] holds(me, res->Some_0.0 as int, j2, local)",
+               # None only when no scope from the floor up holds it
+               "res is None ==> forall|s2: int, j2: int| floor_of(me, local) <= s2 < me.env@.len() && 0 <= j2 < me.env@[s2]@.len() ==> !#[trigger] holds(me, s2, j2, local)"],
+           rewrites=[Rw("R2", r"let (\w+) = self\.local_search_floor\(local\);",
+                        r"let \1 = local_search_floor(me, local);\n        proof { lemma_newest_bounded(me.activations@, owner_of(local), me.activations@.len() as int, me.env@.len() as int); }", min_matches=0),
+                     Rw("R2", r"self\.local_search_floor\(local\)", "local_search_floor(me, local)", min_matches=0),
+                     # the slice's lower bound is taken from the code (whatever expression it is); no slice / `[..]` means 0
+                     Rw("R10e", r"for scope in self\.env\[([\w .+\-()]+)\.\.\]\.iter_mut\(\)\.rev\(\) \{", OUTER, min_matches=0),
+                     Rw("R10e", r"for scope in self\.env(?:\[\.\.\])?\.iter_mut\(\)\.rev\(\) \{", outer("0"), min_matches=0),
+                     Rw("R10e", r"for slot in scope\.iter_mut\(\)\.rev\(\) \{", INNER, min_matches=1),
+                     Rw("R10e", r"slot\.id == Some\(local\)", "slot.is(local)", min_matches=1),
+                     Rw("R10e", r"return Some\(&mut slot\.value\);", "return Some((si, sj));", min_matches=1)],
+           attrs="#[verifier::loop_isolation(false)]", vacuity="-", real_name="Runtime::lookup_local_mut"),
     ],
 )
